@@ -1390,8 +1390,14 @@ def rule_d4(ctx):
     dll = repo.func(sess.qual + '.download_listing')
 
     def is_done_store(st):
-        return isinstance(st, ast.Assign) and any(U.is_self_attr(t, '_session_state') for t in st.targets) \
-            and (dotted(st.value) or '').endswith('SessionState.response_received')
+        if isinstance(st, ast.Assign) and any(U.is_self_attr(t, '_session_state') for t in st.targets) \
+                and (dotted(st.value) or '').endswith('SessionState.response_received'):
+            return True
+        # announcing end_transfer tells listeners (e.g. the WARC recorder) that the transfer is complete
+        if isinstance(st, ast.Expr) and isinstance(st.value, ast.Call) and U.attr_name(st.value) == 'notify' and st.value.args \
+                and (dotted(st.value.args[0]) or '').endswith('Event.end_transfer'):
+            return True
+        return False
 
     def completion_rule(fi, is_await, what, missing_msg):
         cfg = ctx.cfg(fi)
